@@ -99,6 +99,11 @@ main :: () { refs(); }
 def run(chk, tier, seed):
     # partitions where A is nominal at the root (distinct, struct) against every B constructor
     parts = [(a, b) for a in (5, 8) for b in range(len(tylaws.CONS))]
+    # nominal types nested in nominal types (`Timeout :: distinct Seconds`): depth 2 on either side, nominal roots
+    # (the nested constructor is itself nominal in the quick tier; any constructor in the thorough tier)
+    for ra, rb, da, db in [(5, 5, 1, 2), (5, 5, 2, 1), (8, 5, 1, 2), (5, 8, 1, 2), (8, 8, 1, 2), (8, 8, 2, 1), (5, 8, 2, 1), (8, 5, 2, 1)]:
+        for inner in ((5, 8) if tier == 'quick' else range(1, len(tylaws.CONS))):
+            parts.append((ra, rb, da, db, inner))
     tylaws.run_laws(chk, 'C13', MASK, tier, seed, parts=parts)
     ll, so = llcheck.build_harness('llharness')
     mod = llcheck.load_module(ll)
